@@ -204,6 +204,9 @@ fn lazy_binding_cases(ctx: &Ctx) -> Vec<(Case, bool)> {
 pub fn run(ctx: &Ctx) {
     ctx.set_rule("failing programs by construction: 46 failing expressions x 42 syntactic slots (+ return slots) and 37 failing statements x 4 positions, x call wrappers (named, anonymous, method, callback, builtin argument) at depth 0..5, jumps outside their construct, every lexical / parse error class; plus random failing programs from the tape decoder (hostile profile) in random layouts; oracle: stdout = the reference's output up to the failure, exit 103, stderr line 1 `<path>:<l>:<c>: [in '<innermost function>': ]<message>` with l within the script, no internal identifier, Stacktrace with exactly one line per active call at the position of that call, innermost first, ending at <root>; successful programs: empty stderr, exit 0; recursion through three self-call sites; a print that fails after 64 KiB and complete prints of up to 600 KB before a failure; loops bind their target turn by turn (earlier turns have printed, leaving early succeeds), parameter-pattern mismatch attributed to the callee with the full trace. Non-trivial = raised at call depth >= 1 or at a position other than a top-level expression statement; distinct = distinct source texts");
     ctx.replay_corpus(None);
+    let hist = crate::props::faults::history_cases("C17", &["runtime", "syntax"]);
+    ctx.label_n("literal evaluated after similar literals: independent of the history", hist.len() as u64);
+    ctx.judge_all(hist, Via::Cli, None);
     let built = catalogue(ctx.tier == Tier::Thorough);
     let mut cases = vec![];
     for b in &built {
